@@ -11,8 +11,11 @@ from vlib.harness import Sub
 
 PROPERTY = "C17"
 RULE = ("Hypothesis lists of operations on an object graph: pool of Arrays/Vectors (float64/float32/int64, 1-d of one "
-        "length per case, some stored in two Datagroups and a Dataset at once); rules: x op= y for + - * / with y an "
-        "Array / python number / ndarray / Quantity / Vector / another pool object (compatible-different units for + -), "
+        "length per case (3-6, or 1500 so that slices are a tiny fraction of their parent), some stored in two Datagroups "
+        "and a Dataset at once, pool[0] in both groups from the start in half of the cases); rules: x op= y for + - * / with y an "
+        "Array / python number / ndarray / Quantity / Vector / another pool object / one of x's own components "
+        "(compatible-different units for + -), the result compared with the model, with the unit of the out-of-place x op y, "
+        "x's buffer must stay the same memory, y (also ndarray / Quantity operands) must be unchanged; "
         "copy(), copy.copy, copy.deepcopy of Array/Vector/Datagroup/Dataset, container .copy(), slicing, storing into "
         "containers.  Reference model with explicit aliasing: numpy buffers + index expressions (views share the "
         "buffer, copies get a new one), container membership by identity; after every step every tracked object and "
@@ -47,6 +50,8 @@ operand_st = st.one_of(
     st.fixed_dictionaries({"t": st.just("num"), "v": st.sampled_from([2, 3, 0.5, 1.5, -2.0])}),
     st.fixed_dictionaries({"t": st.just("nd"), "vals": vals_st, "dtype": st.sampled_from(DT)}),
     st.fixed_dictionaries({"t": st.just("Q"), "vals": vals_st, "unit": st.sampled_from(UNITS), "scalar": st.booleans()}),
+    # one of the target's own components (v *= v.x): shares data with what is being updated
+    st.fixed_dictionaries({"t": st.just("comp"), "c": st.integers(0, 2)}),
 )
 op_st = st.one_of(
     st.fixed_dictionaries({"op": st.just("iop"), "x": st.integers(0, 30), "o": st.sampled_from(["+", "-", "*", "/"]),
@@ -63,7 +68,10 @@ op_st = st.one_of(
     st.fixed_dictionaries({"op": st.just("ccopy"), "c": st.integers(0, 2),
                            "how": st.sampled_from(["copy", "copy.copy", "copy.deepcopy", "copy.deepcopy"])}),
 )
-case_st = st.fixed_dictionaries({"n": st.integers(3, 6), "pool": st.lists(obj_st, min_size=2, max_size=4),
+case_st = st.fixed_dictionaries({"n": st.sampled_from([3, 4, 5, 6, 3, 4, 5, 6, 1500]),
+                                 "pool": st.lists(obj_st, min_size=2, max_size=4),
+                                 # pool[0] stored in both Datagroups (and so in the Dataset) before the history starts
+                                 "prestore": st.booleans(),
                                  "ops": st.lists(op_st, min_size=2, max_size=12)})
 
 
@@ -96,6 +104,8 @@ class World:
         self.ds["g0"] = self.dgs[0]
         self.extra = []           # (container object, {key: Entry}) for container copies
         self.buf_lowp = {}        # buffer id -> a float32 operand took part in an update of this buffer
+        self.buf_abs = {}         # buffer id -> absolute rounding allowance in raw units (sums may cancel: the error of
+        #                           an update scales with the operands, not with the result)
 
     def raw(self, m):
         b = self.bufs[m.buf]
@@ -111,7 +121,7 @@ def _mk_entry(w, spec, n, scalar=False):
     ncomp = spec["nvec"] if spec["kind"] == "V" else 1
     comps, arrs = [], []
     for c in range(ncomp):
-        v = [x + c for x in spec["vals"][: (1 if scalar else n)]]
+        v = [spec["vals"][i % 6] + c + 0.25 * (i // 6 % 8) for i in range(1 if scalar else n)]
         if dt.startswith("int"):
             v = [int(round(x * 2)) or 1 for x in v]
         nv = np.array(v, dtype=np.dtype(dt))
@@ -145,6 +155,7 @@ def _check_world(w, r, where):
                 with np.errstate(all="ignore"):
                     ok = (np.abs(got - want) <= tol * np.abs(want)) | (got == want) | (np.isnan(got) & np.isnan(want))
                     ok |= np.isinf(want) | (np.abs(want) > 1e300)
+                    ok |= np.abs(got - want) <= w.buf_abs.get(m.buf, 0.0)
                     if m.dtype == "float32":
                         ok |= (np.abs(want) > 1e30) | (np.abs(want) < 1e-30)
                 if not np.all(ok):
@@ -237,6 +248,13 @@ def _operand(w, y, n, target):
         comps = [(w.raw(e.comps[c if e.kind == "V" else 0]).copy(), e.comps[c if e.kind == "V" else 0].unit,
                   e.comps[0].dtype) for c in range(ncomp)]
         return e.objs[0], comps, "pool", e
+    if t == "comp":
+        if target.kind != "V":
+            return None
+        c = y["c"] % ncomp
+        obj = _arrays_of(target.objs[0])[c]
+        mc = target.comps[c]
+        return obj, [(w.raw(mc).copy(), mc.unit, mc.dtype)] * ncomp, "comp", None
     if t == "new":
         spec = dict(y["spec"])
         if spec["kind"] == "V":
@@ -256,13 +274,13 @@ def _operand(w, y, n, target):
     tn = w.raw(target.comps[0]).shape
     if t == "nd":
         dt = y["dtype"]
-        vals = y["vals"][: tn[0]] if tn else y["vals"][:1]
+        vals = [y["vals"][i % 6] for i in range(tn[0])] if tn else y["vals"][:1]
         if dt.startswith("int"):
             vals = [int(round(x * 2)) or 1 for x in vals]
         nv = np.array(vals, dtype=np.dtype(dt)).reshape(tn)
         return nv, [(nv.astype(np.float64), um.ONE, dt)] * ncomp, "nd", None
     if t == "Q":
-        vals = y["vals"][: tn[0]] if (tn and not y["scalar"]) else y["vals"][:1]
+        vals = [y["vals"][i % 6] for i in range(tn[0])] if (tn and not y["scalar"]) else y["vals"][:1]
         nv = np.array(vals, dtype=np.float64).reshape(tn if (tn and not y["scalar"]) else ())
         return nv * osyris.units(y["unit"]), [(nv.copy(), um.parse(y["unit"]), "float64")] * ncomp, "Q", None
     return None
@@ -276,6 +294,10 @@ def history(case, r):
         if spec.get("zero_d"):
             r.label("zero_d_pool_object")
     n_shared_updates = 0
+    if case.get("prestore") and w.pool and w.pool[0].full:
+        for ci in (0, 1):
+            w.dgs[ci]["p0"] = w.pool[0].objs[0]
+            w.dgm[ci]["p0"] = w.pool[0]
     _check_world(w, r, "init")
     for si, op in enumerate(case["ops"]):
         if r.records:
@@ -301,6 +323,23 @@ def history(case, r):
             r.label("iop_" + oper, "y_" + ykind, "target_" + e.kind)
             target = e.objs[0]
             ysnap = [(a._array.tobytes(), str(a.unit)) for a in _arrays_of(yobj)] if yentry is not None else None
+            if ykind == "nd":
+                ysnap_raw = (yobj.tobytes(), None)
+            elif ykind == "Q":
+                ysnap_raw = (np.asarray(yobj.magnitude).tobytes(), str(yobj.units))
+            else:
+                ysnap_raw = None
+            bufs_before = [a._array for a in _arrays_of(target)]
+            n_containers = sum(1 for dm in w.dgm for ee in dm.values() if ee is e)
+            # "x op= y gives x the value and unit of x op y": the out-of-place result on a copy of x is the reference
+            with warnings.catch_warnings(), np.errstate(all="ignore"):
+                warnings.simplefilter("ignore")
+                try:
+                    xcp = target.copy()
+                    ref = xcp + yobj if oper == "+" else xcp - yobj if oper == "-" else xcp * yobj if oper == "*" else xcp / yobj
+                    ref_units = [a.unit for a in _arrays_of(ref)]
+                except Exception:
+                    ref_units = None
             # how the statement is executed
             via_container = None
             if op["via"] == "container":
@@ -351,6 +390,21 @@ def history(case, r):
             if e.kind == "A" and res is not target:
                 r.bad(["inplace-new-object", oper], f"{where}: the Array is not the same object after the update")
                 break
+            if any(not np.shares_memory(b, a._array) for b, a in zip(bufs_before, _arrays_of(res)) if b.size):
+                # the update must be written into the data that other references (slices, aliases) look at
+                r.bad(["inplace-rebinds-buffer", oper, e.kind], f"{where}: x no longer uses the buffer it had before the update")
+                break
+            if ref_units is not None and [a.unit for a in _arrays_of(res)] != ref_units:
+                r.bad(["inplace-unit-differs-from-binary-op", oper], f"{where}: x has unit {[str(a.unit) for a in _arrays_of(res)]} "
+                      f"after x {oper}= y, but x {oper} y has unit {[str(u) for u in ref_units]}")
+                break
+            if ysnap_raw is not None:
+                now_raw = (yobj.tobytes(), None) if ykind == "nd" else (np.asarray(yobj.magnitude).tobytes(), str(yobj.units))
+                if now_raw != ysnap_raw:
+                    r.bad(["operand-modified", oper, ykind], f"{where}: the {ykind} operand changed")
+                    break
+            if n_containers >= 2:
+                r.label("multi_container_update")
             if e.kind == "V":
                 if not isinstance(res, osyris.Vector):
                     r.bad(["inplace-result-type"], f"{where}: {type(res).__name__}")
@@ -386,6 +440,21 @@ def history(case, r):
                     newraw = phys / gu[0]
                     if tdt.startswith("int"):
                         newraw = np.round(newraw)
+                    elif tdt == "float32":
+                        newraw = newraw.astype(np.float32).astype(np.float64)     # x keeps its dtype: stored rounded
+                    # rounding allowance: relative to the operands (a difference may cancel), propagated through * and /
+                    eps = 1.2e-7 if (tdt == "float32" or ydt == "float32" or m.lowp or w.buf_lowp.get(m.buf)) else 2.3e-16
+                    prev_abs = w.buf_abs.get(m.buf, 0.0) * m.unit[0]            # physical
+                    fin = lambda a: float(np.nanmax(np.where(np.isfinite(a), np.abs(a), 0.0), initial=0.0))  # noqa: E731
+                    if oper in "+-":
+                        new_abs = prev_abs + 8 * eps * max(fin(xc), fin(yc))
+                    elif oper == "*":
+                        new_abs = prev_abs * fin(yc) + 8 * eps * fin(phys)
+                    else:
+                        ymin = float(np.nanmin(np.where(np.isfinite(yc) & (yc != 0), np.abs(yc), np.inf), initial=np.inf))
+                        new_abs = (prev_abs / ymin if np.isfinite(ymin) else 0.0) + 8 * eps * fin(phys)
+                    new_raw_abs = new_abs / gu[0] if np.isfinite(new_abs) else 0.0
+                    w.buf_abs[m.buf] = max(new_raw_abs, w.buf_abs.get(m.buf, 0.0) if m.sel is not None else 0.0)
                 buf = w.bufs[m.buf]
                 if ydt == "float32" or m.lowp or (yentry is not None and any(
                         c.lowp or w.buf_lowp.get(c.buf) for c in yentry.comps)):
@@ -431,6 +500,7 @@ def history(case, r):
                 w.bufs.append(np.array(w.raw(m), dtype=np.float64, copy=True))
                 comps.append(MArr(len(w.bufs) - 1, None, m.unit, m.dtype))
                 w.buf_lowp[len(w.bufs) - 1] = w.buf_lowp.get(m.buf, False)
+                w.buf_abs[len(w.bufs) - 1] = w.buf_abs.get(m.buf, 0.0)
             ne = Entry(e.kind, comps, [cp], full=e.full)
             w.pool.append(ne)
             e.shared = True
@@ -452,6 +522,7 @@ def history(case, r):
                         if not um.same_dims(gu, m.unit):
                             r.bad(["inplace-unit", "*", "target-dtype=" + m.dtype], f"{where}: x *= 2.0 gave unit {a.unit}")
                             break
+                        w.buf_abs[m.buf] = w.buf_abs.get(m.buf, 0.0) * (2.0 * m.unit[0] / gu[0])
                         with np.errstate(all="ignore"):
                             newraw = w.raw(m) * (2.0 * m.unit[0] / gu[0])
                         if m.sel is None:
@@ -518,7 +589,8 @@ def history(case, r):
             except Exception as ex:
                 r.bad(["container-copy-raises", how, type(src).__name__, type(ex).__name__], f"{where}: {ex!r}")
                 break
-            r.label("ccopy_" + how)
+            if w.dgm[ci if ci < 2 else 0]:
+                r.label("ccopy_" + how)          # (a copy of an empty container shows nothing)
             if type(cp) is not type(src) or cp is src:
                 r.bad(["container-copy-type", how], f"{where}: {type(cp).__name__}")
                 break
@@ -552,6 +624,7 @@ def history(case, r):
                             w.bufs.append(np.array(w.raw(m), dtype=np.float64, copy=True))
                             comps.append(MArr(len(w.bufs) - 1, None, m.unit, m.dtype))
                             w.buf_lowp[len(w.bufs) - 1] = w.buf_lowp.get(m.buf, False)
+                            w.buf_abs[len(w.bufs) - 1] = w.buf_abs.get(m.buf, 0.0)
                         ne = Entry(e.kind, comps, [gcp[k]], full=True)
                         ne.shared = True
                         e.shared = True
@@ -579,4 +652,5 @@ def history(case, r):
 
 def subs(ctx):
     return [Sub("history", history, strategy=case_st, quick=600, thorough=4000,
-                required={"shared_update": 0.25, "slice": 0.1, "ccopy_copy.deepcopy": 0.05})]
+                required={"shared_update": 0.25, "slice": 0.1, "ccopy_copy.deepcopy": 0.05, "multi_container_update": 0.05,
+                          "y_comp": 0.02})]
